@@ -18,6 +18,7 @@ Anything outside these shapes raises `Unsupported` (a broken obligation: the che
 from __future__ import annotations
 
 import ast
+import re
 from pathlib import Path
 
 from .common import HEADER, Unsupported, find_function, write_if_changed
@@ -62,65 +63,284 @@ def row_steps(tree: ast.AST) -> list[str]:
 
 # ------------------------------------------------------------------ parallel.py
 
+class _Subst(ast.NodeTransformer):
+    def __init__(self, env):
+        self.env = env
+
+    def visit_Name(self, node):
+        return ast.copy_location(ast.Name(id=self.env[node.id], ctx=ast.Load()), node) if node.id in self.env else node
+
+
+def _strip_cast(e: ast.expr) -> ast.expr:
+    while isinstance(e, ast.Call) and ast.unparse(e.func) in ("cast", "typing.cast") and len(e.args) == 2:
+        e = e.args[1]
+    return e
+
+
+def load_or_run_paths(fn: ast.FunctionDef) -> dict[str, tuple[list[str], str]]:
+    """`_load_or_run` by WHAT IT DOES, not how it is written: the body is executed symbolically in the three situations
+    (no cache / the key's file exists / it does not); locals are identified by their definitions; if/else and early-return
+    forms of the same control flow give the same answer.  Result per situation: the calls of `fn` / `cache.load_fn` /
+    `cache.save_fn` in order, and the returned pair."""
+    args = [a.arg for a in fn.args.args]
+    if args[:1] != ["inp"] or "fn" not in args or "cache" not in args:
+        raise Unsupported("_load_or_run: parameters are not (inp, fn, cache)")
+    out = {}
+    for situation in ("none", "hit", "miss"):
+        env: dict[str, str] = {}
+        effects: list[str] = []
+
+        def ev(e: ast.expr) -> str:
+            e = _strip_cast(_Subst(env).visit(ast.parse(ast.unparse(e), mode="eval").body))
+            txt = ast.unparse(e)
+            if txt in ("inp[0]",):
+                return "KEY"
+            if txt in ("inp[1]",):
+                return "VAL"
+            if txt == "cache.tmp_dir / cache.name_fn(KEY)":
+                return "FILE"
+            if txt == "fn(VAL)":
+                effects.append("run")
+                return "RES"
+            if txt == "cache.load_fn(FILE)":
+                effects.append("load")
+                return "LOADED"
+            if txt == "cache.save_fn(FILE, RES)":
+                effects.append("save")
+                return "None"
+            if isinstance(e, ast.Tuple) and len(e.elts) == 2:
+                return f"({ev(e.elts[0])}, {ev(e.elts[1])})"
+            if isinstance(e, ast.Name):
+                return e.id
+            raise Unsupported(f"_load_or_run: expression outside the subset: {txt}")
+
+        def test(t: ast.expr) -> bool:
+            if isinstance(t, ast.UnaryOp) and isinstance(t.op, ast.Not):
+                return not test(t.operand)
+            txt = ast.unparse(_Subst(env).visit(ast.parse(ast.unparse(t), mode="eval").body))
+            if txt == "cache is None":
+                return situation == "none"
+            if txt == "cache is not None":
+                return situation != "none"
+            if txt == "FILE.exists()":
+                if situation == "none":
+                    raise Unsupported("_load_or_run: looks at the cache directory although there is no cache")
+                return situation == "hit"
+            raise Unsupported(f"_load_or_run: condition outside the subset: {txt}")
+
+        def run(stmts) -> str | None:
+            for st in stmts:
+                if isinstance(st, ast.Return):
+                    return ev(st.value)
+                if isinstance(st, ast.Assign) and len(st.targets) == 1:
+                    tgt = st.targets[0]
+                    if isinstance(tgt, ast.Tuple) and ast.unparse(st.value) == "inp" and len(tgt.elts) == 2 \
+                            and all(isinstance(x, ast.Name) for x in tgt.elts):
+                        env[tgt.elts[0].id], env[tgt.elts[1].id] = "KEY", "VAL"
+                    elif isinstance(tgt, ast.Name):
+                        env[tgt.id] = ev(st.value)
+                    else:
+                        raise Unsupported(f"_load_or_run: assignment outside the subset: {ast.unparse(st)}")
+                elif isinstance(st, ast.AnnAssign) and isinstance(st.target, ast.Name) and st.value is not None:
+                    env[st.target.id] = ev(st.value)
+                elif isinstance(st, ast.Expr) and isinstance(st.value, ast.Call):
+                    ev(st.value)
+                elif isinstance(st, ast.If):
+                    r = run(st.body if test(st.test) else st.orelse)
+                    if r is not None:
+                        return r
+                else:
+                    raise Unsupported(f"_load_or_run: statement outside the subset: {ast.unparse(st)}")
+            return None
+
+        ret = run(body_of(fn))
+        if ret is None:
+            raise Unsupported("_load_or_run: a path does not return")
+        out[situation] = (effects, ret)
+    return out
+
+
+def _first_components(e: ast.expr) -> bool:
+    """`[k for k, _ in inputs]` (any names; list, set or generator)"""
+    return (isinstance(e, (ast.ListComp, ast.SetComp, ast.GeneratorExp)) and len(e.generators) == 1
+            and not e.generators[0].ifs and ast.unparse(e.generators[0].iter) == "inputs"
+            and isinstance(e.generators[0].target, ast.Tuple) and len(e.generators[0].target.elts) == 2
+            and isinstance(e.elt, ast.Name) and isinstance(e.generators[0].target.elts[0], ast.Name)
+            and e.elt.id == e.generators[0].target.elts[0].id)
+
+
+def key_check(body: list[ast.stmt], upto: int) -> bool:
+    """before the branches: inside an `if cache is not None:` a `ValueError` is raised when the first components of
+    `inputs` are not pairwise distinct (`len(set(X)) != len(X)`, X a local defined as those components, either order)"""
+    for st in body[:upto]:
+        if not (isinstance(st, ast.If) and ast.unparse(st.test) == "cache is not None"):
+            continue
+        keys = {t.id for x in st.body if isinstance(x, ast.Assign) and _first_components(x.value)
+                for t in x.targets if isinstance(t, ast.Name)}
+        for x in st.body:
+            if isinstance(x, ast.If) and isinstance(x.test, ast.Compare) and len(x.test.ops) == 1 \
+                    and isinstance(x.test.ops[0], (ast.NotEq, ast.Lt, ast.Gt)):
+                sides = {ast.unparse(x.test.left), ast.unparse(x.test.comparators[0])}
+                if any(sides == {f"len(set({k}))", f"len({k})"} for k in keys) \
+                        and any(isinstance(y, ast.Raise) and "ValueError" in ast.unparse(y) for y in ast.walk(x)) \
+                        and not x.orelse:
+                    return True
+    return False
+
+
 def parallelise_facts(tree: ast.AST) -> dict[str, bool]:
     facts = {}
-    lr = find_function(tree, "_load_or_run")
-    want = ("k, v = inp\n"
-            "if cache is None:\n    res = fn(v)\n"
-            "else:\n    file = cache.tmp_dir / cache.name_fn(k)\n    if file.exists():\n"
-            "        return (k, cast(Tout, cache.load_fn(file)))\n    res = fn(v)\n    cache.save_fn(file, res)\n"
-            "return (k, res)")
-    facts["loadBeforeRun"] = "\n".join(ast.unparse(s) for s in body_of(lr)) == want
-    if not facts["loadBeforeRun"]:
-        raise Unsupported("_load_or_run is not: no cache -> fn(v); stored -> load; else fn(v), save")
+    paths = load_or_run_paths(find_function(tree, "_load_or_run"))
+    want = {"none": (["run"], "(KEY, RES)"), "hit": (["load"], "(KEY, LOADED)"), "miss": (["run", "save"], "(KEY, RES)")}
+    if paths != want:
+        raise Unsupported(f"_load_or_run is not: no cache -> fn(v); stored -> load; else fn(v), save — it is {paths}")
+    facts["loadBeforeRun"] = True
     fn = find_function(tree, "parallelise")
     body = body_of(fn)
-    # 1. the key check
-    first = body[0]
-    ok = (isinstance(first, ast.If) and ast.unparse(first.test) == "cache is not None" and not first.orelse
-          and any(isinstance(n, ast.Raise) and "ValueError" in ast.unparse(n) for n in ast.walk(first))
-          and "len(set(keys)) != len(keys)" in ast.unparse(first) and "keys = [k for k, _ in inputs]" in ast.unparse(first))
-    if not ok:
-        raise Unsupported("parallelise: the first statement is not the `cache is not None` key check")
-    facts["cacheChecksKeys"] = True
-    # 2. worker = partial(_load_or_run, fn=fn, cache=cache)
-    w = [s for s in body if isinstance(s, (ast.Assign, ast.AnnAssign)) and "partial(_load_or_run, fn=fn, cache=cache)" in ast.unparse(s)]
-    if len(w) != 1:
-        raise Unsupported("parallelise: worker is not partial(_load_or_run, fn=fn, cache=cache)")
-    # 3. the two branches
     br = [s for s in body if isinstance(s, ast.If) and ast.unparse(s.test) == "parallel"]
     if len(br) != 1:
         raise Unsupported("parallelise: no single `if parallel:`")
+    at = body.index(br[0])
+    # 1. the key check guards the cache, before anything runs
+    if not key_check(body, at):
+        raise Unsupported("parallelise: no `if cache is not None:` check of pairwise distinct keys before the branches")
+    facts["cacheChecksKeys"] = True
+    # 2. the worker: a local bound to partial(_load_or_run, fn=fn, cache=cache); the result: the local that is returned
+    ws = [s for s in body[:at] if isinstance(s, (ast.Assign, ast.AnnAssign)) and s.value is not None
+          and ast.unparse(s.value) == "partial(_load_or_run, fn=fn, cache=cache)"]
+    if len(ws) != 1:
+        raise Unsupported("parallelise: no single local bound to partial(_load_or_run, fn=fn, cache=cache)")
+    tgt = ws[0].targets[0] if isinstance(ws[0], ast.Assign) else ws[0].target
+    if not isinstance(tgt, ast.Name):
+        raise Unsupported("parallelise: the worker is not bound to a name")
+    W = tgt.id
+    if not (isinstance(body[-1], ast.Return) and isinstance(body[-1].value, ast.Name)):
+        raise Unsupported("parallelise: does not return a local")
+    R = body[-1].value.id
+    # 3. the two branches
     par, seq = br[0].body, br[0].orelse
-    seq_src = " ".join(ast.unparse(s) for s in seq)
-    if not (len(seq) == 1 and seq_src.startswith("results = list(tqdm(map(worker, inputs)")):
-        raise Unsupported(f"parallelise: sequential branch is not list(map(worker, inputs)): {seq_src[:80]}")
+    seq_ok = False
+    if len(seq) == 1 and isinstance(seq[0], ast.Assign) and ast.unparse(seq[0].targets[0]) == R:
+        v = seq[0].value
+        if isinstance(v, ast.Call) and ast.unparse(v.func) == "list" and len(v.args) == 1:
+            inner = v.args[0]
+            if isinstance(inner, ast.Call) and ast.unparse(inner.func) == "tqdm" and inner.args:
+                inner = inner.args[0]  # the progress bar passes its iterable through
+            seq_ok = ast.unparse(inner) == f"map({W}, inputs)"
+    if not seq_ok:
+        raise Unsupported(f"parallelise: sequential branch is not {R} = list(map({W}, inputs))")
     facts["seqIsMap"] = True
     par_mod = ast.Module(body=par, type_ignores=[])
-    maps = [n for n in ast.walk(par_mod) if isinstance(n, ast.Call) and ast.unparse(n.func) == "pool.map"]
-    if not (len(maps) == 1 and ast.unparse(maps[0]) == "pool.map(worker, inputs, timeout=timeout)"):
-        raise Unsupported("parallelise: the pool branch is not pool.map(worker, inputs, timeout=timeout)")
-    if not any(ast.unparse(s) == "results = []" for s in par):
-        raise Unsupported("parallelise: results does not start empty")
+    maps = [n for n in ast.walk(par_mod) if isinstance(n, ast.Call) and isinstance(n.func, ast.Attribute) and n.func.attr == "map"]
+    if not (len(maps) == 1 and [ast.unparse(a) for a in maps[0].args] == [W, "inputs"]
+            and {k.arg: ast.unparse(k.value) for k in maps[0].keywords} == {"timeout": "timeout"}):
+        raise Unsupported(f"parallelise: the pool branch is not <pool>.map({W}, inputs, timeout=timeout)")
+    if not any(ast.unparse(s) == f"{R} = []" for s in par):
+        raise Unsupported(f"parallelise: {R} does not start empty")
     loops = [n for n in ast.walk(par_mod) if isinstance(n, ast.While)]
     if len(loops) != 1 or ast.unparse(loops[0].test) != "True" or len(loops[0].body) != 1 or not isinstance(loops[0].body[0], ast.Try):
         raise Unsupported("parallelise: no single `while True: try:` drain loop")
     tr = loops[0].body[0]
-    body_src = [ast.unparse(s) for s in tr.body]
-    if body_src != ["key, value = next(it)", "pbar.update(1)", "results.append((key, value))"]:
-        raise Unsupported(f"parallelise: the drain loop body is {body_src}")
-    handlers = {ast.unparse(h.type): [ast.unparse(s) for s in h.body] for h in tr.handlers}
-    if set(handlers) != {"StopIteration", "TimeoutError"} or handlers["StopIteration"] != ["break"]:
-        raise Unsupported(f"parallelise: handlers {handlers}")
+
+    def progress(st: ast.stmt) -> bool:  # `pbar.update(1)`: touches neither the iterator nor the results
+        return isinstance(st, ast.Expr) and isinstance(st.value, ast.Call) and R not in ast.unparse(st) and "next(" not in ast.unparse(st)
+
+    core = [st for st in tr.body if not progress(st)]
+    ok = (len(core) == 2 and isinstance(core[0], ast.Assign) and isinstance(core[0].targets[0], ast.Tuple)
+          and len(core[0].targets[0].elts) == 2 and all(isinstance(x, ast.Name) for x in core[0].targets[0].elts)
+          and isinstance(core[0].value, ast.Call) and ast.unparse(core[0].value.func) == "next" and len(core[0].value.args) == 1)
+    if ok:
+        a, b = (x.id for x in core[0].targets[0].elts)
+        ok = ast.unparse(core[1]) == f"{R}.append(({a}, {b}))"
+    if not ok:
+        raise Unsupported(f"parallelise: the drain loop body is {[ast.unparse(x) for x in tr.body]}")
+    handlers = {ast.unparse(h.type): [st for st in h.body if not progress(st)] for h in tr.handlers}
+    if set(handlers) != {"StopIteration", "TimeoutError"} or [ast.unparse(x) for x in handlers["StopIteration"]] != ["break"]:
+        raise Unsupported(f"parallelise: handlers {sorted(handlers)}")
     facts["appendInOrder"] = True
-    facts["timeoutSkipsRow"] = not any("results" in s for s in handlers["TimeoutError"])
-    if ast.unparse(body[-1]) != "return results":
-        raise Unsupported("parallelise: does not return results")
-    # nothing touches `results` after the branches
-    after = body[body.index(br[0]) + 1:-1]
-    if any("results" in ast.unparse(s) for s in after):
-        raise Unsupported("parallelise: results is modified after it was collected")
+    facts["timeoutSkipsRow"] = not any(R in ast.unparse(x) for x in handlers["TimeoutError"])
+    if any(not isinstance(x, ast.Pass) for x in handlers["TimeoutError"]) and facts["timeoutSkipsRow"]:
+        raise Unsupported(f"parallelise: the TimeoutError handler does {[ast.unparse(x) for x in handlers['TimeoutError']]}")
+    # nothing touches the results after the branches
+    if any(R in {n.id for n in ast.walk(s) if isinstance(n, ast.Name)} for s in body[at + 1:-1]):
+        raise Unsupported(f"parallelise: {R} is modified after it was collected")
     return facts
+
+
+# ------------------------------------------------------------------ placeholder grids
+
+_NUM = r"(-?\d+(?:\.\d+)?)"
+_OPS = {">=": "≥", ">": ">", "<=": "≤", "<": "<"}
+
+
+def _rat(txt: str) -> str:
+    from fractions import Fraction
+
+    q = Fraction(txt)
+    return f"({q.numerator} : Rat)" if q.denominator == 1 else f"(({q.numerator} : Rat) / {q.denominator})"
+
+
+def grid_helpers(tree: ast.AST) -> list[str]:
+    """`_time_points_of_time_course` / `_time_points_of_protocol`: the statements must have exactly the shapes below;
+    the comparison operators, the constants, the `+ k` of the points per step and the `[d:]` slice are SLOTS that are
+    rendered into Lean (the theorems of Props/C09 identify the result with the grids of successful runs)"""
+    tc = [ast.unparse(x) for x in body_of(find_function(tree, "_time_points_of_time_course"))]
+    pats = [r"time_points = np\.array\(time_points, dtype=float\)",
+            rf"time_points = time_points\[time_points (>=|>) {_NUM}\]",
+            rf"if len\(time_points\) == 0 or time_points\[0\] != {_NUM}:\n    time_points = np\.insert\(time_points, 0, {_NUM}\)",
+            r"return time_points"]
+    if len(tc) != len(pats):
+        raise Unsupported("_time_points_of_time_course: statement count")
+    ms = []
+    for st, pat in zip(tc, pats):
+        m = re.fullmatch(pat, st)
+        if m is None:
+            raise Unsupported(f"_time_points_of_time_course: statement outside the subset: {st}")
+        ms.append(m)
+    op, c0 = ms[1].group(1), ms[1].group(2)
+    t1, t2 = ms[2].group(1), ms[2].group(2)
+    from fractions import Fraction
+
+    if Fraction(t1) != Fraction(t2):
+        raise Unsupported("_time_points_of_time_course: tests for one start, inserts another")
+    out = [f"/-- `time_points[time_points {op} {c0}]` -/\ndef tcKeeps (t : Rat) : Bool := decide (t {_OPS[op]} {_rat(c0)})\n",
+           f"/-- the start that is inserted when missing -/\ndef tcStart : Rat := {_rat(t2)}\n",
+           "/-- `_time_points_of_time_course` -/\ndef tcPlaceholder (tps : List Rat) : List Rat :=\n"
+           "  let kept := tps.filter tcKeeps\n"
+           "  if kept.length == 0 || kept.head? != some tcStart then tcStart :: kept else kept\n"]
+    pr = [ast.unparse(x) for x in body_of(find_function(tree, "_time_points_of_protocol"))]
+    pats = [r"ends = np\.array\(cast\(pd\.TimedeltaIndex, protocol\.index\)\.total_seconds\(\), dtype=float\)",
+            rf"if time_points is not None:\n    points = np\.union1d\(ends, np\.array\(time_points, dtype=float\)\)\n"
+            rf"    return np\.insert\(points\[\(points (>=|>) {_NUM}\) & \(points (<=|<) ends\[-1\]\)\], 0, {_NUM}\)",
+            rf"grid, t_start = \(\[np\.array\(\[{_NUM}\]\)\], {_NUM}\)",
+            r"for t_end in ends:\n    grid\.append\(np\.linspace\(t_start, t_end, cast\(int, time_points_per_step\) \+ (\d+)\)\[(\d+):\]\)\n    t_start = t_end",
+            r"return np\.concatenate\(grid\)"]
+    if len(pr) != len(pats):
+        raise Unsupported("_time_points_of_protocol: statement count")
+    ms = []
+    for st, pat in zip(pr, pats):
+        m = re.fullmatch(pat, st)
+        if m is None:
+            raise Unsupported(f"_time_points_of_protocol: statement outside the subset: {st}")
+        ms.append(m)
+    lo_op, lo_c, hi_op, ins = ms[1].groups()
+    g0, s0 = ms[2].groups()
+    if Fraction(g0) != Fraction(s0):
+        raise Unsupported("_time_points_of_protocol: the grid does not start where the first step starts")
+    k, d = ms[3].groups()
+    out += [f"/-- `points[(points {lo_op} {lo_c}) & (points {hi_op} ends[-1])]` -/\n"
+            f"def ptcKeeps (t tEnd : Rat) : Bool := decide (t {_OPS[lo_op]} {_rat(lo_c)}) && decide (t {_OPS[hi_op]} tEnd)\n",
+            f"def ptcStart : Rat := {_rat(ins)}\n",
+            f"def protoStart : Rat := {_rat(s0)}\n",
+            f"/-- `np.linspace(t_start, t_end, time_points_per_step + {k})[{d}:]` -/\n"
+            f"def protoPoints (n : Nat) : Nat := n + {k}\ndef protoDrop : Nat := {d}\n",
+            "/-- the loop of `_time_points_of_protocol` (`linspace` is the model's `np.linspace`) -/\n"
+            "def protoSteps (linspace : Rat → Rat → Nat → List Rat) (n : Nat) : Rat → List Rat → List Rat\n"
+            "  | _, [] => []\n"
+            "  | tStart, tEnd :: rest => (linspace tStart tEnd (protoPoints n)).drop protoDrop ++ protoSteps linspace n tEnd rest\n",
+            "def protoPlaceholder (linspace : Rat → Rat → Nat → List Rat) (n : Nat) (ends : List Rat) : List Rat :=\n"
+            "  protoStart :: protoSteps linspace n protoStart ends\n"]
+    return out
 
 
 # ------------------------------------------------------------------ the drivers
@@ -164,18 +384,19 @@ def driver_fact(fn: ast.FunctionDef, routine: bool) -> dict:
     ret = [n for n in ast.walk(fn) if isinstance(n, ast.Return)]
     if len(ret) != 1:
         raise Unsupported(f"{name}: more than one return")
-    res_names = [t.id for s in body_of(fn) if isinstance(s, ast.Assign) and s.value is call for t in s.targets if isinstance(t, ast.Name)]
-    if res_names != ["res"]:
-        raise Unsupported(f"{name}: the result of parallelise is not bound to `res`")
+    bound = [t.id for s in body_of(fn) if isinstance(s, ast.Assign) and s.value is call for t in s.targets if isinstance(t, ast.Name)]
+    if len(bound) != 1:
+        raise Unsupported(f"{name}: the result of parallelise is not bound to one local")
+    N = bound[0]  # whatever the local is called
     text = "\n".join(ast.unparse(s) for s in body_of(fn)[body_of(fn).index(next(s for s in body_of(fn) if isinstance(s, ast.Assign) and s.value is call)) + 1:])
-    if "raw_results=[i[1] for i in res]" in text:
+    if re.search(rf"raw_results=\[(\w+)\[1\] for \1 in {N}\]", text):
         idx = (f"raw_index=pd.Index({table}.iloc[:, 0]) if {table}.shape[1] == 1 else pd.MultiIndex.from_frame({table})")
         if idx not in text:
             raise Unsupported(f"{name}: positional results, but raw_index is not built from {table}")
         container = "positional"
-    elif "raw_results=dict(res)" in text:
+    elif f"raw_results=dict({N})" in text:
         container = "byLabel"
-    elif "for k, v in res}" in text or "pd.concat(dict(res))" in text:
+    elif re.search(rf"for (\w+), (\w+) in {N}\}}", text) or f"pd.concat(dict({N}))" in text:
         container = "byLabel"
     else:
         raise Unsupported(f"{name}: results are joined with the index in an unknown way")
@@ -214,6 +435,20 @@ def generate(repo: Path, outdir: Path) -> bool:
     def b(x: bool) -> str:
         return "true" if x else "false"
 
+    # Simulation.default: a model that cannot be evaluated at its initial state (ZeroDivisionError) is replaced by its
+    # NaN-valued copy before anything else is asked of it
+    sim_t = ast.parse((repo / "src/mxlpy/simulation.py").read_text())
+    dflt = find_function(sim_t, "default", cls="Simulation")
+    tries = [n for n in body_of(dflt) if isinstance(n, ast.Try)]
+    survives = (len(tries) == 1 and body_of(dflt)[0] is tries[0]
+                and [ast.unparse(x) for x in tries[0].body] == ["model.get_parameter_values()"]
+                and len(tries[0].handlers) == 1 and ast.unparse(tries[0].handlers[0].type) == "ZeroDivisionError"
+                and [ast.unparse(x) for x in tries[0].handlers[0].body] == ["model = _nan_valued_copy(model)"])
+    workers_catch = all(
+        any(isinstance(h.type, ast.Name) and h.type.id == "ZeroDivisionError" and ast.unparse(h.body[0]) == "res = Result(Exception())"
+            for t in ast.walk(top_function(scan_t, w)) if isinstance(t, ast.Try) for h in t.handlers)
+        for w in ("_steady_state_worker", "_time_course_worker", "_protocol_worker", "_protocol_time_course_worker"))
+
     out = [HEADER.format(src=f"{SCAN}, {MC}, {PAR}", tr="c09.py"), "namespace Mxl.Generated.C09\n",
            "inductive RowStep where\n  | copy | updVars | updPars | call\nderiving DecidableEq, Repr\n",
            "inductive Container where\n  | positional | byLabel\nderiving DecidableEq, Repr\n",
@@ -227,6 +462,11 @@ def generate(repo: Path, outdir: Path) -> bool:
            f"def seqIsMap : Bool := {b(pf['seqIsMap'])}\n",
            f"def appendInOrder : Bool := {b(pf['appendInOrder'])}\n",
            f"def timeoutSkipsRow : Bool := {b(pf['timeoutSkipsRow'])}\n",
+           "/-- every scan worker turns a `ZeroDivisionError` of the simulator into a failed result (`guardZeroDiv`) -/\n"
+           f"def workersCatchZeroDivision : Bool := {b(workers_catch)}\n",
+           "/-- `Simulation.default` does not raise for a model that cannot be evaluated at its initial state -/\n"
+           f"def placeholderSurvivesZeroDivision : Bool := {b(survives)}\n",
+           *grid_helpers(scan_t),
            "def drivers : List Driver := ["]
     rows = []
     for d in drivers:
